@@ -10,6 +10,7 @@ import (
 	"math/rand/v2"
 	"os"
 	"path/filepath"
+	"runtime"
 	"sort"
 	"strings"
 	"testing"
@@ -376,10 +377,25 @@ func Main(t *testing.T, chk *Check) {
 	}
 }
 
+// resourcePressure reports whether this worker process should be replaced by a fresh one.
+func resourcePressure() bool {
+	if runtime.NumGoroutine() > 30000 {
+		return true
+	}
+	ents, err := os.ReadDir("/proc/self/fd")
+	return err == nil && len(ents) > 3000
+}
+
 func runShard(t *testing.T, chk *Check, cfg *Config, res *ShardResult, start time.Time) {
 	idset := map[uint64]struct{}{}
 	for i := 0; i < cfg.MaxCases; i++ {
 		if cfg.MaxSeconds > 0 && time.Since(start).Seconds() > cfg.MaxSeconds {
+			break
+		}
+		// tasks frozen by a simulated process death keep their descriptors and stacks for the life of this process
+		if i > 0 && resourcePressure() {
+			res.Recycle = true
+			res.Probes["worker-recycled (descriptors/goroutines of frozen tasks)"]++
 			break
 		}
 		cs := CaseSeed(cfg.Seed, cfg.Shard, cfg.FirstCase+i)
